@@ -90,7 +90,9 @@ def eval_case(case):
                     out.append(O.V("(d) inserting steps into an absence-free result and removing them does not restore the logs",
                                    "C18/d", {"logs": bad[:5], "time": (ref["time"], d["time"])}))
         prev = d
-    return {"violations": out, "sig": simcheck.behaviour_sig(S, trace) + (tuple(r["op"]["op"] for r in trace),
+    from .. import modelrun
+    dis = modelrun.compare(case, trace, modelrun.FULL) if not any(t.get("sub") for t in case["tasks"]) else []
+    return {"violations": out, "disagreements": dis, "sig": simcheck.behaviour_sig(S, trace) + (tuple(r["op"]["op"] for r in trace),
                                                                           tuple(tuple(r["op"].get("list", ())) for r in trace)),
             "hist": simcheck.base_hist(S, trace), "nontrivial": (trace[0].get("dump") or {}).get("time", 0) >= 2,
             "summary": {"times": [r["dump"]["time"] if r.get("dump") else None for r in trace]}}
